@@ -821,6 +821,51 @@ def rule_r7(chk, prog):
                             'time limits was not found')
 
 
+WALL_CLOCKS = ('time.time', 'time.monotonic', 'time.perf_counter',
+               'time.time_ns', 'time.monotonic_ns', 'time.perf_counter_ns')
+CPU_CLOCKS = ('time.process_time', 'time.thread_time', 'time.process_time_ns',
+              'time.thread_time_ns', 'time.clock', 'os.times',
+              'resource.getrusage')
+
+
+def rule_r8(chk, prog):
+    chk.rule('C10.R8', 'the run time recorded for a run is wall-clock time '
+             'around the child: the default limit (golden run time + 1) * '
+             '1.5 is derived from it, and a CPU clock of ddSMT itself does '
+             'not see the command at all')
+    m = prog.mod('checker')
+    f = m.func('execute')
+    n = 0
+    for r in walk_no_nested(f):
+        if not (isinstance(r, ast.Return) and isinstance(
+                r.value, ast.Call) and call_name(r.value) == 'RunInfo'):
+            continue
+        v = r.value
+        rt = v.args[3] if len(v.args) > 3 else kw(v, 'runtime')
+        if rt is None or isinstance(rt, ast.Constant):
+            continue
+        if isinstance(rt, ast.Name) and rt.id in params_of(f):
+            continue  # the expired run reports the limit itself
+        n += 1
+        e = expand_locals(f, rt)
+        clocks = [call_name(c) for c in ast.walk(e)
+                  if isinstance(c, ast.Call) and (call_name(c) or '') in
+                  WALL_CLOCKS + CPU_CLOCKS]
+        bad = [c for c in clocks if c in CPU_CLOCKS]
+        ok = bool(clocks) and not bad and len(set(clocks)) == 1
+        chk.check('C10.R8', 'checker.execute', f'runtime = {unparse(e)[:60]}',
+                  ok,
+                  f'the recorded run time is computed from {clocks or "?"}: '
+                  + ('a CPU clock of the ddSMT process does not include the '
+                     'time the command runs, so the golden run time reads '
+                     'as about 0 and the automatic time limit is 1.5 s '
+                     'whatever the command needs - slower candidates (or a '
+                     'slower machine) are rejected as timeouts'
+                     if bad else 'start and end must be read from one '
+                     'wall clock'), loc=m.loc(r), nontrivial=True)
+    chk.floor('C10.R8', 'records with a measured run time', n, 1)
+
+
 def run(tier):
     prog = Program()
     chk = Check(
@@ -845,6 +890,7 @@ def run(tier):
     chk.guard(rule_r5, chk, prog)
     chk.guard(rule_r6, chk, prog)
     chk.guard(rule_r7, chk, prog)
+    chk.guard(rule_r8, chk, prog)
     extra = None
     if tier == 'thorough':
         from .. import selftest
